@@ -28,7 +28,9 @@ RULE = (
     "option names, (d) every socket list of length 1..3 over the socket kinds, (e) every adjustment x "
     "representative values of its documented type as keyword, (f) the same as --x=v / '--x v' / "
     "--x / --no-x through parse_args, (g) option names of arguments.rst, runner.rst and runner.HELP "
-    "against _params. Each is judged by a reference rule table written from the documentation: "
+    "against _params, (h) settings as applied by create_server() on real sockets: mode of the UNIX socket file per "
+    "unix_socket_perms value x process umask x keyword/CLI form, number of worker threads, addresses bound per "
+    "listen item, descriptors listened on for sockets=. Each is judged by a reference rule table written from the documentation: "
     "refused (ValueError / getopt error) or accepted with exactly the documented cast of every "
     "supplied value. distinct = one key per configuration"
 )
